@@ -15,6 +15,10 @@ Definition gen_fixes : fixes :=
   mkFx Gen.ssm_write_fail_closes Gen.ssm_data_fail_resets Gen.ssm_rset_fail_closes_mail
        Gen.ssm_rset_fail_closes_rcpt Gen.ssm_rset_fail_closes_data Gen.is_temp_error_unwraps Gen.esc_regex.
 
+(* isTempError / errorCode / enhancedStatusCode look at the length of the error text before indexing into it;
+   the model's classifiers are total functions that agree with the guarded code on empty and short texts *)
+Definition gen_len_guards : bool := Gen.senderr_guard_temp && Gen.senderr_guard_code && Gen.senderr_guard_esc.
+
 Definition gen_reasons : list bytes := Gen.send_err_reasons.
 
 Definition std_reasons : list bytes :=
